@@ -10,6 +10,8 @@ import XrsVerif.Proofs.ILViewshedSucc
 import XrsVerif.Proofs.ILViewshedInsProg
 import XrsVerif.Proofs.ILViewshedDel
 import XrsVerif.Proofs.ILViewshedLift
+import XrsVerif.Proofs.ILVsNV
+import XrsVerif.Proofs.ILVsSweepFill
 import Mathlib.Tactic.Positivity
 /-
   C05 -- viewshed marks a cell visible exactly when the line-of-sight model says so.
@@ -1023,5 +1025,271 @@ example [Trig ℚ] :
     exState_holds.nil).1 exState_holds.linked (by decide) rfl exState_holds.abs).2.2.2.1
 
 end Generated
+
+/-! ### 8. the event geometry, the event list and the output rule as *generated from the source* (layer T3)
+
+  `Gen.IL.vsEventRowCol`, `vsEventPos`, `vsAngle`, `vsVerticalAng`, `vsInitEventList` are the ILang translations of
+  `_calculate_event_row_col`, `_calc_event_pos`, `_calculate_angle`, `_get_vertical_ang`, `_init_event_list` (callees
+  inlined), regenerated on every run and validated against the numba-compiled functions by the `il:` streams.  The
+  refinement theorems (Proofs/ILVs*.lean) say that they compute the hand model of section 6 / section 5: the corner
+  tables `nbOff` / `posOff`, the corner elevation `cornerElev` through the three-row ring buffer, three events per
+  non-observer cell in row-major order, the observer-row buffer, `180` at the observer, the vertical-angle formula.
+  Bearings are `_calculate_angle` as an expression in `atan` (`angF`); they are not related to the exact cross-product
+  order of section 6 here (that is compared by seam 0 of the correspondence). -/
+section GeneratedEvents
+open XrsVerif.IL XrsVerif.ILSw XrsVerif.ViewshedEvents
+variable {F : Type} [Fl F]
+
+/-- the generated `_calculate_event_row_col` names the model's diagonal neighbour `(row, col) + nbOff` for ENTER / EXIT of
+    every cell and observer (its guard `abs(x - event_col > 1) or …` never fires); CENTER raises `ValueError` -/
+theorem generated_event_corner_cell (s : State F) (fuel : Nat) (hs : s.ctl = .run) :
+    let r := Gen.IL.vsEventRowCol.run s fuel
+    let o := nbOff (s.ienv "event_type") (s.ienv "event_row" - s.ienv "viewpoint_row") (s.ienv "event_col" - s.ienv "viewpoint_col")
+    (s.ienv "event_type" = 0 → r.ctl = .err "ValueError") ∧
+    (s.ienv "event_type" ≠ 0 → r.ctl = .ret ∧ r.ienv "ret0" = s.ienv "event_row" + o.1 ∧ r.ienv "ret1" = s.ienv "event_col" + o.2) := by
+  obtain ⟨h1, h2⟩ := vsEventRowCol_refines s fuel hs
+  exact ⟨h1, fun h0 => ⟨(h2 h0).1, (h2 h0).2.1, (h2 h0).2.2.1⟩⟩
+
+example [Trig ℚ] :
+    let s : State (NV ℚ) := ⟨fun v => if v = "event_type" then 1 else if v = "event_row" then 2 else if v = "event_col" then 3 else 1,
+      fun _ => none, fun _ => false, fun _ => [], fun _ => [], fun _ => [], fun _ _ _ _ _ _ => none, .run⟩
+    (Gen.IL.vsEventRowCol.run s 0).ienv "ret0" = 3 ∧ (Gen.IL.vsEventRowCol.run s 0).ienv "ret1" = 2 := by
+  intro s
+  obtain ⟨_, h⟩ := generated_event_corner_cell s 0 rfl
+  obtain ⟨_, h1, h2⟩ := h (by decide)
+  rw [h1, h2]; decide
+
+/-- **the generated `_calc_event_pos` returns the model's event point** (half the doubled coordinates `y2`, `x2` of `mkEvent`):
+    the entering / exiting corner of section 6 for ENTER / EXIT, the cell centre for CENTER; its closing assertion holds -/
+theorem generated_event_point [Trig α] (s : State (NV α)) (fuel : Nat) (hs : s.ctl = .run)
+    (hty : s.ienv "event_type" = 1 ∨ s.ienv "event_type" = 0 ∨ s.ienv "event_type" = -1) :
+    let r := Gen.IL.vsEventPos.run s fuel
+    let o := posOff (s.ienv "event_type") (s.ienv "event_row" - s.ienv "viewpoint_row") (s.ienv "event_col" - s.ienv "viewpoint_col")
+    r.ctl = .ret ∧ r.fenv "ret0" = some ((2 * (s.ienv "event_row" : α) + (o.1 : α)) / 2) ∧
+      r.fenv "ret1" = some ((2 * (s.ienv "event_col" : α) + (o.2 : α)) / 2) := by
+  intro r o
+  obtain ⟨h1, h2, h3, _⟩ := vsEventPos_refines (halfOK_NV (K := α)) s fuel hs
+  have hm : (o.1 = 1 ∨ o.1 = 0 ∨ o.1 = -1) ∧ (o.2 = 1 ∨ o.2 = 0 ∨ o.2 = -1) := by
+    by_cases h0 : s.ienv "event_type" = 0
+    · simp only [o]; rw [h0]; simp [posOff_centre]
+    · simp only [o]; rw [posOff_eq_offOf _ _ _ h0]; exact offOf_mem _ _ _
+  exact ⟨h1, h2.trans (halfF_NV _ _ hm.1), h3.trans (halfF_NV _ _ hm.2)⟩
+
+/-- hence the corners the *generated* program returns are the corners of smallest / largest bearing
+    (`enter_corner_smallest_exit_corner_largest` applies to the very offsets it adds) -/
+theorem generated_corners_are_extreme (dr dc : Int) (hne : dr ≠ 0 ∨ dc ≠ 0) :
+    offOf 1 dr dc = posOff 1 dr dc ∧ offOf (-1) dr dc = posOff (-1) dr dc ∧ offOf 1 dr dc = nbOff 1 dr dc ∧
+      offOf (-1) dr dc = nbOff (-1) dr dc :=
+  ⟨(posOff_eq_offOf 1 dr dc (by decide)).symm, (posOff_eq_offOf (-1) dr dc (by decide)).symm,
+   (nbOff_eq_offOf 1 dr dc).symm, (nbOff_eq_offOf (-1) dr dc).symm⟩
+
+/-- the generated `_calculate_angle` computes the bearing formula `angF` (axis cases first, then `atan (|Δy| / |Δx|)` placed
+    in its quadrant), for every number type -/
+theorem generated_bearing (s : State F) (fuel : Nat) (hs : s.ctl = .run) :
+    let r := Gen.IL.vsAngle.run s fuel
+    r.ctl = .ret ∧ r.fenv "ret0" =
+      angF (s.fenv "event_x") (s.fenv "event_y") (Fl.lit (s.ienv "viewpoint_x") 1) (Fl.lit (s.ienv "viewpoint_y") 1) := by
+  obtain ⟨h1, h2, _⟩ := vsAngle_refines s fuel hs
+  exact ⟨h1, h2⟩
+
+/-- due east is bearing 0, due north `π / 2` (rows grow downwards), whatever `atan` is -/
+example [Trig ℚ] : angF (some 3 : NV ℚ) (some 1) (some 1) (some 1) = some 0 ∧
+    angF (some 1 : NV ℚ) (some 0) (some 1) (some 1) = Fl.div piF (Fl.lit 2 1) := by
+  constructor <;> simp [angF]
+
+/-- **the vertical angle the generated `_get_vertical_ang` returns lies in [0, 180], 90 = level** (`vertical_angle_range` for
+    the program translated statement by statement; its assertion does not fire at positive distance) -/
+theorem generated_vertical_angle_range [Trig α] (H : TrigHyp α) (s : State (NV α)) (fuel : Nat) (hs : s.ctl = .run) (ve d2 e : α)
+    (h1 : s.fenv "viewpoint_elev" = some ve) (h2 : s.fenv "distance_to_viewpoint" = some d2) (h3 : s.fenv "elev" = some e)
+    (hd : 0 < d2) :
+    let r := Gen.IL.vsVerticalAng.run s fuel
+    r.ctl = .ret ∧ ∃ v, r.fenv "ret0" = some v ∧ 0 ≤ v ∧ v ≤ 180 ∧
+      (e < ve → 0 < v ∧ v < 90) ∧ (e = ve → v = 90) ∧ (ve < e → 90 < v ∧ v < 180) := by
+  obtain ⟨g1, _⟩ := vsVerticalAng_refines s fuel hs
+  have hpos : Fl.lt (Fl.lit 0 1) (Fl.abs (s.fenv "distance_to_viewpoint")) = true := by
+    rw [h2]; simp [abs_pos.mpr (ne_of_gt hd)]
+  obtain ⟨c1, c2, _⟩ := g1 hpos
+  obtain ⟨v, hv, rest⟩ := vertical_angle_range H ve d2 e hd
+  refine ⟨c1, v, ?_, rest⟩
+  rw [c2, h1, h2, h3, vangF_eq_vertAng ve d2 e hd, hv]
+
+/-- **the generated `_init_event_list` writes the model's event list**: on a NaN-free `h × w` terrain `T` (read from `raster`)
+    with the observer at `(vr, vc)`, the cell at linear position `p ≠ observer` -- the `cntBefore`-th non-observer cell in
+    row-major order -- owns rows `3 · rank + t` of `event_list`, `t = 0, 1, 2` = ENTER, CENTER, EXIT, and they hold the model's
+    `mkEvent` (row, column, type, entering-corner / centre / exiting-corner elevation; the bearing field is `_calculate_angle`
+    of the model's event point); `data` holds the model's `dataRow`; the observer's cell of the visibility grid is 180 -/
+theorem generated_event_list [Trig ℚ] (s : State (NV ℚ)) (fuel h w n vr vc : Nat) (wf : InitWf s h w n vr vc)
+    (T : Int → Int → ℚ) (hT : terr (s.fa "raster") w = embT T) :
+    let r := Gen.IL.vsInitEventList.run s fuel
+    r.ctl = .ret ∧
+    (∀ p, p < h * w → p ≠ vr * w + vc → ∀ t, t < 3 →
+      let e := mkEvent T h w vr vc (p / w : Nat) (p % w : Nat) (tyOf t)
+      ∀ k, k < 7 → (r.fa "event_list").getD ((3 * cntBefore (vr * w + vc) p + t) * 7 + k) none =
+        ([some (e.row : ℚ), some (e.col : ℚ), some (e.ty : ℚ),
+          angF (some ((e.x2 : ℚ) / 2)) (some ((e.y2 : ℚ) / 2)) (some (vc : ℚ)) (some (vr : ℚ)),
+          some e.e0, some e.e1, some e.e2] : List (NV ℚ)).getD k none) ∧
+    (∀ col, col < w → ∀ a b c, (dataRow T h w vr vc)[col]? = some (a, b, c) →
+      (r.fa "data").getD col none = some a ∧ (r.fa "data").getD (w + col) none = some b ∧
+        (r.fa "data").getD (2 * w + col) none = some c) ∧
+    r.fa "visibility_grid" = (s.fa "visibility_grid").set (vr * w + vc) (some 180) := by
+  obtain ⟨c1, c2, _, c4, _, c6, _⟩ := vsInitEventList_refines (litOK_NV (K := ℚ)) (halfOK_NV (K := ℚ)) s fuel h w n vr vc wf
+  refine ⟨c1, ?_, ?_, ?_⟩
+  · intro p hp hpo t ht e k hk
+    have ht3 : tyOf t = 1 ∨ tyOf t = 0 ∨ tyOf t = -1 := by
+      unfold tyOf; split <;> [skip; split] <;> simp
+    have := c2 p hp hpo t ht k hk
+    rw [hT, evRowF_model T h w vr vc _ _ _ ht3] at this
+    exact this
+  · intro col hcol a b c hrow
+    obtain ⟨d1, d2, d3⟩ := c4 col hcol
+    rw [hT] at d1 d2 d3
+    simp only [dataRow, List.getElem?_map, List.getElem?_range hcol, Option.map_some, Option.some.injEq] at hrow
+    by_cases hc : col = vc
+    · subst hc
+      simp only [dataTriple, if_true] at d1 d2 d3
+      simp only [if_true, Prod.mk.injEq] at hrow
+      obtain ⟨rfl, rfl, rfl⟩ := hrow
+      exact ⟨d1, d2, d3⟩
+    · have hc' : ¬ ((col : Int) = (vc : Int)) := by omega
+      simp only [dataTriple, hc, if_false, cornerElevF_model] at d1 d2 d3
+      simp only [hc', if_false, Prod.mk.injEq] at hrow
+      obtain ⟨rfl, rfl, rfl⟩ := hrow
+      exact ⟨d1, d2, d3⟩
+  · rw [c6]; simp
+
+/-- non-vacuity: a 1 × 2 terrain, the observer on the west cell: the only other cell yields rows 0, 1, 2 -/
+example [Trig ℚ] :
+    let s : State (NV ℚ) := ⟨fun _ => 0, fun _ => none, fun _ => false, fun _ => [],
+      fun a => if a = "raster" then [some 1, some 2] else if a = "event_list" then List.replicate 21 (some 0)
+        else if a = "data" then List.replicate 6 (some 0) else if a = "visibility_grid" then [some (-1), some (-1)] else [],
+      fun a => if a = "raster" then [1, 2] else if a = "event_list" then [3, 7] else if a = "data" then [3, 2]
+        else if a = "visibility_grid" then [1, 2] else [], fun _ _ _ _ _ _ => none, .run⟩
+    InitWf s 1 2 3 0 0 ∧ terr (s.fa "raster") 2 = embT (fun r c => if r = 0 ∧ c = 0 then 1 else if r = 0 ∧ c = 1 then 2 else 0) →
+    (Gen.IL.vsInitEventList.run s 0).fa "visibility_grid" = [some 180, some (-1)] := by
+  intro s hh
+  obtain ⟨_, _, _, h4⟩ := generated_event_list s 0 1 2 3 0 0 hh.1 _ hh.2
+  rw [h4]; rfl
+
+/-! #### the sweep (`Gen.IL.vsSweep`, `_viewshed_cpu_sweep`)
+
+  The generated sweep is the template `sweepBody` around its four inlined status-tree routines (`vsSweep_is_template`, checked
+  by `rfl`).  Proved about it: the set-up (`generated_sweep_setup`), one iteration of the initial fill, and one iteration of
+  the event loop for each event type (`evBody_enter`, `evBody_exit`, `evBody_center` of Proofs/ILVsSweep*.lean) *in terms
+  of the inlined tree routines as black boxes*: `InsContract`, `DelContract`, `QryContract` say of the inlined copy what the
+  hand model says of the operation (`leafInsert` / `delCore` up to `Rebal`, the two-phase query) -- for the query that is
+  exactly what `vsQuery_refines` proves of the stand-alone program `Gen.IL.vsQuery`.
+  PARTIAL, see `generated_sweep_partial`: the contracts are hypotheses (no renaming lemma carries the stand-alone
+  refinement theorems to the inlined copies; insertion and deletion are themselves only partially refined, section 7), and
+  the two loops are not closed by induction (the idle-stack / fresh-row invariant and the event-order preconditions
+  `sweep_discipline` supplies are per-iteration hypotheses). -/
+
+/-- the generated sweep is the sweep template around its four inlined tree routines (any edit of `_viewshed_cpu_sweep` or of
+    an inlined geometry function breaks this) -/
+theorem generated_sweep_template :
+    Gen.IL.vsSweep.body = sweepBody insFill insLoop delLoop qryLoop := vsSweep_is_template
+
+/-- **the set-up of the generated sweep builds the model's initial status structure**: after it, `root = 0`, the two arrays
+    hold a well-linked tree consisting of the permanent dummy root alone (`initTree`: key 0, gradients (-1, -1, S),
+    bearings (S, S, 0), stored maximum S, black), the NIL row carries the sentinel, and the idle stack holds the rows
+    `2 … N - 1` with `N - 2` on top of its height cell; the visibility grid, `data` and the event arrays are untouched -/
+theorem generated_sweep_setup [Trig α] (s : State (NV α)) (fuel h w vc N : Nat) (hs : s.ctl = .run)
+    (shR : s.shp "raster" = [h, w]) (hvc : s.ienv "vp_col" = vc) (hvcw : vc ≤ w) (hN : (w : Int) - vc + w * h + 10 = (N : Int)) :
+    let r := exec fuel (ILVs.seqL sweepSetup) s
+    r.ctl = .run ∧ r.ienv "root" = 0 ∧
+      ILVs.Linked (r.ia "status_struct") N (-1) (.node .nil 0 .nil) ∧
+      ILVs.absT (r.fa "status_values") (r.ia "status_struct") (.node .nil 0 .nil) =
+        ILVs.mapT ILVs.emb (initTree (ILVs.smallestK : α) 0 (-1)) ∧
+      ILVs.vAt (r.fa "status_values") (N - 1) 7 = ILVs.smallest ∧
+      r.ia "idle" = idleInit N ∧ r.fa "visibility_grid" = s.fa "visibility_grid" ∧ r.fa "data" = s.fa "data" := by
+  have hwh : (0 : Int) ≤ (w : Int) * h := by positivity
+  have hN2 : 2 ≤ N := by omega
+  have st := sweepSetup_exec s fuel h w vc N hs shR hvc hvcw hN
+  obtain ⟨t1, t2, t3⟩ := setup_tree (F := NV α) N hN2
+  refine ⟨st.ctl, st.root, ?_, ?_, ?_, st.idle, (st.keepF _ (by simp)).1, (st.keepF _ (by simp)).1⟩
+  · rw [st.ss]; exact t1
+  · rw [st.sv, st.ss, t2]
+    simp [ILVs.mapT, initTree, dummy, dummyNodeF, ILVs.mapN, ILVs.emb, ILVs.smallest, ILVs.smallestK]
+  · rw [st.sv]; exact t3
+
+
+/-- non-vacuity: a 1 × 2 raster, the observer in column 0: fourteen rows, `root = 0` -/
+example [Trig ℚ] :
+    let s : State (NV ℚ) := ⟨fun _ => 0, fun _ => none, fun _ => false, fun _ => [], fun _ => [],
+      fun a => if a = "raster" then [1, 2] else [], fun _ _ _ _ _ _ => none, .run⟩
+    (exec 0 (ILVs.seqL sweepSetup) s).ienv "root" = 0 ∧ (exec 0 (ILVs.seqL sweepSetup) s).ia "idle" = idleInit 14 := by
+  intro s
+  obtain ⟨_, h2, _, _, _, h6, _⟩ := generated_sweep_setup (α := ℚ) s 0 1 2 0 14 rfl rfl rfl (by decide) (by decide)
+  exact ⟨h2, h6⟩
+
+/-- **a CENTER event of the generated sweep decides line of sight and writes the vertical angle** (over the contract of the
+    inlined query): on arrays holding the image of a tree `t0` with ordered keys and no overestimate below the root, with
+    the event's cell `(r, c)` active, the loop body writes `_get_vertical_ang` into `visibility_grid[r, c]` exactly when no
+    nearer active cell spanning the event's bearing has a greater interpolated gradient -- `query_decides` for the program --
+    and leaves the grid alone otherwise.  (`K`, `g`: the key and the centre gradient the program computes; their being
+    numbers, the key positive and the vertical angle non-negative are hypotheses: `atan` / `sqrt` are uninterpreted.) -/
+theorem generated_center_event [Trig α] (hq : QryContract (NV α) qryLoop qP) (ins del : St) (s : State (NV α))
+    (fuel n h w ne : Nat) (sh : ILVs.Sh) (r c k : Nat) (inv : EvInv s ne k) (hv : SVS s n)
+    (hL : ILVs.Linked (s.ia "status_struct") n (-1) sh) (hN : sh.idxs.Nodup) (hroot : s.ienv "root" = sh.ptr)
+    (hS : ILVs.vAt (s.fa "status_values") (n - 1) 7 = ILVs.smallest) (shV : s.shp "visibility_grid" = [h, w])
+    (hr0 : rctAt s k 0 = r) (hc0 : rctAt s k 1 = c) (hty : rctAt s k 2 = 0) (hr : r < h) (hc : c < w)
+    (hfuel : sh.size + sh.height + 2 ≤ fuel)
+    (t0 : Viewshed.Tree α) (habs : ILVs.absT (s.fa "status_values") (s.ia "status_struct") sh = ILVs.mapT ILVs.emb t0)
+    (hb : BST t0) (haq : AugLeQ ILVs.smallestK t0) (K g a : α)
+    (hkey : keyF (r : Int) (c : Int) (s.ienv "vp_row") (s.ienv "vp_col") (s.fenv "ew_res") (s.fenv "ns_res") = some K)
+    (hg : gradCellF (r : Int) (c : Int) (Fl.add (aeAt s k 2) (s.fenv "vp_target")) (s.ienv "vp_row") (s.ienv "vp_col")
+      (s.fenv "vp_elev") (s.fenv "ew_res") (s.fenv "ns_res") = some g)
+    (ha : aeAt s k 0 = some a) (hSg : ILVs.smallestK ≤ g) (hKpos : 0 < K)
+    (hact : ∃ m ∈ t0.toList, m.key = K) (hspan : ∀ m ∈ t0.toList, m.key < K → spans m a = true ∨ minv m ≤ g)
+    (hge : Fl.le (Fl.lit 0 1) (vangF (s.fenv "vp_elev") (some K) (Fl.add (aeAt s k 2) (s.fenv "vp_target"))) = true) :
+    let visible := ∀ m ∈ t0.toList, m.key < K → spans m a = true → itp m a ≤ g
+    ∃ s' : State (NV α), exec fuel (evBody ins del qryLoop) s = s' ∧ s'.ctl = .run ∧ s'.ia = s.ia ∧
+      s'.fa "status_values" = s.fa "status_values" ∧
+      (visible → s'.fa "visibility_grid" = (s.fa "visibility_grid").set (r * w + c)
+        (vangF (s.fenv "vp_elev") (some K) (Fl.add (aeAt s k 2) (s.fenv "vp_target")))) ∧
+      (¬ visible → s'.fa "visibility_grid" = s.fa "visibility_grid") := by
+  intro visible
+  have hnf : ∀ nd ∈ ILVs.predsOf (ILVs.absT (s.fa "status_values") (s.ia "status_struct") sh) ⟨(some K : NV α)⟩,
+      ¬ (⟨(some K : NV α)⟩ : ILVs.Fv (NV α)) < nd.key := by
+    rw [habs]
+    intro nd hnd
+    change nd ∈ ILVs.predsOf (ILVs.mapT ILVs.emb t0) (ILVs.emb K) at hnd
+    rw [ILVs.predsOf_emb, ILVs.predsOf_eq_filter hb] at hnd
+    obtain ⟨m, hm, rfl⟩ := List.mem_map.mp hnd
+    rw [List.mem_reverse, List.mem_filter] at hm
+    have : m.key < K := by simpa using hm.2
+    show ¬ (ILVs.emb K < ILVs.emb m.key)
+    rw [ILVs.emb_lt]
+    exact not_lt.mpr (le_of_lt this)
+  have hpos : Fl.lt (Fl.lit 0 1) (Fl.abs (some K : NV α)) = true := by simp [abs_pos.mpr (ne_of_gt hKpos)]
+  obtain ⟨ie', fe', be', hex, _, _⟩ := evBody_center hq ins del s fuel n h w ne sh r c k inv hv hL hN hroot hS shV hr0 hc0 hty hr hc
+    hfuel (by rw [hkey]; exact hnf) (by rw [hkey]; exact hpos) (by rw [hkey]; exact hge)
+  rw [hkey, hg, ha, habs] at hex
+  have hq' : (ILVs.queryP ILVs.smallest (ILVs.mapT ILVs.emb t0) ⟨(some K : NV α)⟩ ⟨some a⟩ ⟨some g⟩).v =
+      some (query ILVs.smallestK t0 K a g) := by
+    change (ILVs.queryP (ILVs.emb ILVs.smallestK) (ILVs.mapT ILVs.emb t0) (ILVs.emb K) (ILVs.emb a) (ILVs.emb g)).v = _
+    rw [ILVs.queryP_emb, ILVs.queryP_eq_query hb]
+    rfl
+  rw [hq'] at hex
+  have hdec := query_decides K a g hSg hb haq hact hspan
+  refine ⟨_, hex, rfl, rfl, by simp [setS_apply], ?_, ?_⟩
+  · intro hvis
+    have : query ILVs.smallestK t0 K a g ≤ g := hdec.mpr hvis
+    simp [setS_apply, this]
+  · intro hvis
+    have : ¬ query ILVs.smallestK t0 K a g ≤ g := fun hle => hvis (hdec.mp hle)
+    simp [setS_apply, this]
+
+/-- **the sweep by induction over the event list -- what is missing** (PARTIAL): the iteration theorems compose into "the
+    generated sweep is the model's sweep `runT` over `sweepOps`" once (i) the three contracts are discharged for the inlined
+    copies (a renaming lemma for `exec` would carry `vsQuery_refines`; `_insert_into_tree` / `_delete_from_tree` need their
+    fixup loops, section 7), (ii) the idle-stack invariant (the rows above the stack height are exactly the rows not in the
+    tree) is carried through the two loops, (iii) `sweep_discipline` is used to discharge "the key is in the tree" at EXIT /
+    CENTER and "the key is not" at ENTER.  What IS established unconditionally: the code around the tree routines. -/
+theorem generated_sweep_partial :
+    Gen.IL.vsSweep.body = ILVs.seqK sweepSetup
+      (.seq (fillLoop insFill) (.seq (.setI "nevents" (.dim "event_rcts" 0)) (.seq (evLoop insLoop delLoop qryLoop) .ret))) :=
+  vsSweep_is_template
+
+end GeneratedEvents
 
 end XrsVerif.C05
